@@ -5,7 +5,7 @@ Decided (structure of the code, all instantiations):
   C05.region-order  head vs sub-states order in C_/O_ update members and the 16 reaction wrappers; OS_: Initial before Remaining
   C05.consume       between two consecutive deliveries on any path there is a `_consumed` test, a re-arm, or an entry-gated callee
   C05.injection     injected bases run before the own handler on the way down, after it on the way up
-Not decided: relative order of injected bases vs own handler for query / exitGuard (reported, not judged).
+(The order of injected bases vs the own handler is judged for query and exitGuard as well: query walks down, exitGuard up.)
 """
 import re
 
@@ -327,9 +327,10 @@ def _walk(n):
     return walk(n)
 
 
-DOWN = ("EntryGuard", "Enter", "Reenter", "PreUpdate", "Update", "PreReact", "React")
-UP = ("PostUpdate", "PostReact", "Exit")
-NOT_JUDGED = ("ExitGuard", "Query")
+# query() "visits the active states in that order" - the order of update / react: a walk down; the exit guards are asked sub-states first, like exit(): a walk up
+DOWN = ("EntryGuard", "Enter", "Reenter", "PreUpdate", "Update", "PreReact", "React", "Query")
+UP = ("PostUpdate", "PostReact", "Exit", "ExitGuard")
+NOT_JUDGED = ()
 
 
 def _lower(x):
